@@ -53,6 +53,30 @@ def specs(tier):
                 yield spec
 
 
+    # a Markov line whose probability is 0.0 or below half an ulp of 1 (1 - P(M) is still exactly 1.0): the flag, not the arithmetic, decides that it goes
+    for pm in (0.0, 1e-17):
+        for gr in ([('A1D1', .6), ('M', pm), ('D1D1', .4)], [('M', pm), ('A1', 1.0)], [('Y1O1', .5), ('A1', .5), ('M', pm)]):
+            spec = dict(D.TERMINALS[0])
+            spec.update(grammar=gr, prince=D.PRINCE, omen=OMEN_A)
+            yield spec
+    # lengths of two digits (A10, D12: one structure in ten of a real ruleset)
+    for gr in ([('A10', .5), ('A1D12', .3), ('M', .2)], [('D12A10', .6), ('A10D1', .4)], [('M', .5), ('D12', .25), ('A10A1', .25)]):
+        spec = dict(TERMINALS_LONG)
+        spec.update(grammar=gr, prince=D.PRINCE, omen=OMEN_A)
+        yield spec
+
+
+def _long_terminals():
+    t = {k: (dict(v) if isinstance(v, dict) else v) for k, v in D.TERMINALS[0].items()}
+    t['A'][10] = [('abcdefghij', .7), ('klmnopqrst', .2), ('uvwxyzabcd', .1)]
+    t['C'][10] = [('L' * 10, .75), ('U' + 'L' * 9, .25)]
+    t['D'][12] = [('123456789012', .5), ('000000000000', .5)]
+    return t
+
+
+TERMINALS_LONG = _long_terminals()
+
+
 def shards(tier):
     return [('load', i, NSHARDS) for i in range(NSHARDS)] + [('sess', i) for i in range(len(session_specs(tier)))]
 
